@@ -1056,7 +1056,7 @@ class DateTime(datetime.datetime, Date):
         if day_of_week is None:
             return dt.set(day=1)
 
-        month = calendar.monthcalendar(dt.year, dt.month)
+        month = calendar.Calendar(calendar.MONDAY).monthdayscalendar(dt.year, dt.month)
 
         calendar_day = day_of_week
 
@@ -1079,7 +1079,7 @@ class DateTime(datetime.datetime, Date):
         if day_of_week is None:
             return dt.set(day=self.days_in_month)
 
-        month = calendar.monthcalendar(dt.year, dt.month)
+        month = calendar.Calendar(calendar.MONDAY).monthdayscalendar(dt.year, dt.month)
 
         calendar_day = day_of_week
 
